@@ -366,6 +366,9 @@ def reshape(x, shape, merge_chunks=True, limit=None):
     dout = len(shape)
     if not merge_chunks and din > dout:
         x = x.rechunk(dict.fromkeys(range(din - dout), 1))
+        # The result is chunked differently from the one merge_chunks=True
+        # gives for the same input: it must not share its keys
+        name = "reshape-" + tokenize(x, shape)
 
     inchunks, outchunks, _, _ = reshape_rechunk(x.shape, shape, x.chunks)
     x2 = x.rechunk(inchunks)
